@@ -292,6 +292,39 @@ pub fn credential_validation(cex: &Value) -> Result<String, String> {
           log.borrow_mut().push(format!("[unit] status: {name}: {}", if want { "rejected" } else { "accepted" }));
         }
       }
+      // all-errors mode: the status unit reports alongside the others (revoked + expired, revoked + wrong holder), first-error mode one
+      {
+        let mut v = base_claims.clone();
+        v["vc"]["credentialStatus"] = status(serde_json::json!("42"), "42", "RevocationBitmap2022");
+        let jwt = signed(&v);
+        for (what, opts, n) in [
+          ("revoked and expired", base().earliest_expiry_date(ts(t0 + 5000)), 2usize),
+          ("revoked, expired and issued too late", base().earliest_expiry_date(ts(t0 + 5000)).latest_issuance_date(ts(t0 - 5000)), 3),
+          ("revoked and held by someone else", base().subject_holder_relationship(Url::parse(OTHER).unwrap(), SubjectHolderRelationship::AlwaysSubject), 2),
+          ("revoked only", base(), 1),
+        ] {
+          match run(&jwt, &issuer_rb, &opts, FailFast::AllErrors) {
+            Err(e) if e.len() == n && e.iter().any(|x| matches!(x, JwtValidationError::Revoked)) => {}
+            other => log.borrow_mut().push(format!("[unit] all-errors mode, {what}: reported {:?}", other.map(|_| ()).map_err(|e| e.iter().map(|x| x.to_string()).collect::<Vec<_>>()))),
+          }
+          match run(&jwt, &issuer_rb, &opts, FailFast::FirstError) {
+            Err(e) if e.len() == 1 => {}
+            other => log.borrow_mut().push(format!("[unit] first-error mode, {what}: reported {:?}", other.map(|_| ()).map_err(|e| e.len()))),
+          }
+        }
+      }
+      // the issuer is a DID: a DID URL built on the trusted issuer's DID (fragment / query / path) is not that issuer
+      for suffix in ["#assert", "?versionId=1", "/path", "#"] {
+        let mut v = base_claims.clone();
+        v["iss"] = serde_json::json!(format!("{ISSUER}{suffix}"));
+        let jwt = signed(&v);
+        if run(&jwt, &issuer, &base(), FailFast::FirstError).is_ok() {
+          log.borrow_mut().push(format!("[issuer-url] a credential issued by {ISSUER}{suffix} is accepted against the document of {ISSUER}"));
+        }
+        if identity_credential::validator::JwtCredentialValidatorUtils::extract_issuer_from_jwt::<identity_did::CoreDID>(&jwt).is_ok() {
+          log.borrow_mut().push(format!("[issuer-url] extract_issuer_from_jwt yields a DID for the issuer {ISSUER}{suffix}"));
+        }
+      }
       let _ = issuer_rb.resolve_revocation_bitmap(sid.into());
     }
     // subject-holder relationship
@@ -675,6 +708,21 @@ pub fn claims(cex: &Value) -> Result<String, String> {
               }
             }
             Err(e) => log.push(format!("[roundtrip] own claims rejected: {e}")),
+          }
+        }
+      }
+    }
+    // a single subject given in list form: either refused, or - if its claims are produced - they read back to an equal credential
+    {
+      let mut v = full.clone();
+      let subj = v["credentialSubject"].clone();
+      v["credentialSubject"] = serde_json::json!([subj]);
+      if let Ok(c) = Credential::<Object>::from_json_value(v) {
+        if let Ok(claims) = c.serialize_jwt(None) {
+          match validator.verify_signature::<_, Object>(&sign_jwt(&claims, Some(&kid), None, &k), &[issuer.clone()], &JwsVerificationOptions::default()) {
+            Ok(d) if d.credential == c => {}
+            Ok(_) => log.push("[roundtrip] a credential whose single subject is given as a one-element list changes through its claims".into()),
+            Err(e) => log.push(format!("[roundtrip] claims of a credential with a one-element subject list rejected: {e}")),
           }
         }
       }
